@@ -57,6 +57,7 @@ func (c20) Thresholds(tier string) map[string]int64 {
 		"sequences-with>=2-wrapped-growths":       200,
 		"stack-ops":                               50000,
 		"stack-clear":                             500,
+		"tall-stacks":                             40,
 		"stack-pushall":                           1000,
 		"inputs-tokenised":                        8000,
 		"inputs-with-indent":                      2000,
@@ -70,7 +71,7 @@ func (c20) Thresholds(tier string) map[string]int64 {
 }
 
 func (c20) Rule() string {
-	return "cases 0..255 = the bounded-exhaustive part: every sequence over {enqueue, dequeue} of length 18 (quick) / 24 (thorough) on container.Queue, compared after every operation (Dequeue result, Peek, Size) with a slice model. Further cases = (a) one PRNG sequence of 400 operations biased to hover around 8, 16 and 32 elements with a rotated head, so that several growths happen while the ring is wrapped (counted through the verif hook VerifRingState), one case in eight runs 9000 operations hovering around 65 ... 2300 pending elements instead; (b) one PRNG sequence of 300 operations on container.Stack incl. PushAll, Clear, Peek, Size against a slice model, (c) 15 inputs tokenised with the indentation-aware lexer: generated programs in PRNG layouts incl. nesting chains 6-10 deep and, one in six, 66-160 deep (multi-level dedents, token queue growth inside the lexer, read through the hook VerifPending), token-level mutations, truncations and raw byte strings. Token oracle: no nil token, no DEDENT when the running INDENT-DEDENT balance is 0, balance 0 at the first EOF, EOF within 3*len+16 calls, 3 further calls return EOF, no panic. Non-trivial: the sequence reaches >=9 elements with a rotated head, or the input produces >=1 INDENT. Distinct by hash of the operation sequence / the input."
+	return "cases 0..255 = the bounded-exhaustive part: every sequence over {enqueue, dequeue} of length 18 (quick) / 24 (thorough) on container.Queue, compared after every operation (Dequeue result, Peek, Size) with a slice model. Further cases = (a) one PRNG sequence of 400 operations biased to hover around 8, 16 and 32 elements with a rotated head, so that several growths happen while the ring is wrapped (counted through the verif hook VerifRingState), one case in eight runs 9000 operations hovering around 65 ... 2300 pending elements instead; (b) one PRNG sequence of 300 operations on container.Stack incl. PushAll, Clear, Peek, Size against a slice model, one case in eight also pushes a stack to 300-2100 elements and pops it to the bottom, (c) 15 inputs tokenised with the indentation-aware lexer: generated programs in PRNG layouts incl. nesting chains 6-10 deep and, one in six, 66-160 deep (multi-level dedents, token queue growth inside the lexer, read through the hook VerifPending), token-level mutations, truncations and raw byte strings. Token oracle: no nil token, no DEDENT when the running INDENT-DEDENT balance is 0, balance 0 at the first EOF, EOF within 3*len+16 calls, 3 further calls return EOF, no panic. Non-trivial: the sequence reaches >=9 elements with a rotated head, or the input produces >=1 INDENT. Distinct by hash of the operation sequence / the input."
 }
 
 func (c20) Assumptions() []string {
@@ -357,6 +358,66 @@ func (p c20) Run(c *core.Ctx) {
 			c.Violate("the stack is not an exact LIFO: "+d, map[string]any{"operations": strings.Join(trace, " ")})
 			return
 		}
+	}
+	// ---- (b2) a tall stack: pushed one by one (and by PushAll) to 300-2100 elements, sizes that cross every power
+	// of two on the way, then popped to the bottom; now and then cleared when tall and filled again
+	if c.Idx%8 == 5 {
+		var s container.Stack[int]
+		var model []int
+		target := r.Range(300, 2100)
+		d := guard(func() string {
+			for round := 0; round < 2; round++ {
+				for len(model) < target {
+					if r.Chance(1, 40) {
+						xs := []int{len(model) + 1, len(model) + 2, len(model) + 3}
+						s.PushAll(xs...)
+						model = append(model, xs...)
+					} else {
+						s.Push(len(model) + 1)
+						model = append(model, len(model)+1)
+					}
+					if r.Chance(1, 25) && len(model) > 0 {
+						if v := s.Pop(); v != model[len(model)-1] {
+							return fmt.Sprintf("Pop() = %d, want %d (stack %d tall)", v, model[len(model)-1], len(model))
+						}
+						model = model[:len(model)-1]
+					}
+					if s.Size() != len(model) {
+						return fmt.Sprintf("Size() = %d, want %d", s.Size(), len(model))
+					}
+					if len(model) > 0 && s.Peek() != model[len(model)-1] {
+						return fmt.Sprintf("Peek() = %d, want %d", s.Peek(), model[len(model)-1])
+					}
+				}
+				if round == 0 && r.Bool() {
+					s.Clear()
+					model = model[:0]
+					if s.Size() != 0 {
+						return fmt.Sprintf("Size() = %d after Clear of a stack %d tall", s.Size(), target)
+					}
+					c.Feature("tall-stack-cleared")
+					target = r.Range(70, 300)
+					continue
+				}
+				for len(model) > 0 {
+					if v := s.Pop(); v != model[len(model)-1] {
+						return fmt.Sprintf("Pop() = %d, want %d (%d elements left below)", v, model[len(model)-1], len(model)-1)
+					}
+					model = model[:len(model)-1]
+					if s.Size() != len(model) {
+						return fmt.Sprintf("Size() = %d, want %d", s.Size(), len(model))
+					}
+					c.Feature("stack-ops")
+				}
+				target = r.Range(70, 600)
+			}
+			return ""
+		})
+		if d != "" {
+			c.Violate("the stack is not an exact LIFO: "+d, map[string]any{"operations": fmt.Sprintf("a stack pushed up to %d elements and popped to the bottom", target)})
+			return
+		}
+		c.Feature("tall-stacks")
 	}
 	// ---- (c) token balance
 	for i := 0; i < 15; i++ {
